@@ -16,14 +16,22 @@ MODULE_OPS = ('conv', 'dw', 'lin', 'bn', 'pad', 'pool', 'flatm', 'gap')
 
 
 class Prog(list):
-    """SSA program; `extra_out`: a second tensor the network returns (forward returns a tuple)."""
+    """SSA program; `extra_out`: a second tensor the network returns; `out_form`: how the two are returned
+    ('tuple': (a, b); 'dict': {'out': (a, b)}; 'nested': [(a, b)])."""
     extra_out = None
+    out_form = 'tuple'
 
 
 def merge_out(y):
     """The value(s) a network returns as one 2-D tensor (a tuple is flattened and concatenated)."""
-    if isinstance(y, (tuple, list)):
-        return torch.cat([t.flatten(1) for t in y], 1)
+    def leaves(z):
+        if isinstance(z, dict):
+            return [t for k in z for t in leaves(z[k])]
+        if isinstance(z, (tuple, list)):
+            return [t for e in z for t in leaves(e)]
+        return [z]
+    if isinstance(y, (tuple, list, dict)):
+        return torch.cat([t.flatten(1) for t in leaves(y)], 1)
     return y
 
 
@@ -72,7 +80,9 @@ class GNet(nn.Module):
             if record is not None:
                 record.append(tuple(r.shape))
         if getattr(self.prog, 'extra_out', None) is not None:
-            return v[-1], v[self.prog.extra_out]
+            pair = (v[-1], v[self.prog.extra_out])
+            form = getattr(self.prog, 'out_form', 'tuple')
+            return pair if form == 'tuple' else ({'out': pair} if form == 'dict' else [pair])
         return v[-1]
 
 
@@ -109,7 +119,7 @@ class Builder:
         self.taint.append(t)
         return len(self.prog) - 1
 
-    def conv(self, src, cout=None, dw=False, keep_size=False, k_choices=None, p_bn=None, pad_value=0.):
+    def conv(self, src, cout=None, dw=False, keep_size=False, k_choices=None, p_bn=None, pad_value=0., groups=1):
         rng, dim = self.rng, self.dim
         cin = self.ch[src]
         cout = cin if dw else (cout or rng.choice([2, 3, 4, 5, 6]))
@@ -120,12 +130,12 @@ class Builder:
             d = 1 if unit else rng.choice([1, 1, 2, 3])
             s = 1 if (keep_size or unit) else rng.choice([1, 1, 1, 2])
             p = self.add(('pad', src, nn.ConstantPad1d(((K - 1) * d, 0), pad_value)), cin, self.sp[src])
-            m = nn.Conv1d(cin, cout, K, stride=s, dilation=d, groups=cin if dw else 1, bias=bias)
+            m = nn.Conv1d(cin, cout, K, stride=s, dilation=d, groups=cin if dw else groups, bias=bias)
         else:
             K = 1 if unit else rng.choice([1, 3])
             s = 1 if (keep_size or unit) else rng.choice([1, 1, 2])
             p = src
-            m = nn.Conv2d(cin, cout, K, stride=s, padding=K // 2, groups=cin if dw else 1, bias=bias)
+            m = nn.Conv2d(cin, cout, K, stride=s, padding=K // 2, groups=cin if dw else groups, bias=bias)
         so = (self.sp[src] - 1) // s + 1
         n = self.add(('dw' if dw else 'conv', p, m), cout, so)
         if rng.random() < (self.o.get('p_bn', .5) if p_bn is None else p_bn):
@@ -346,6 +356,17 @@ def gen_program(rng, dim, opts=None):
             rng.shuffle(lst)
             cur = b.add(('cat', lst), sum(b.ch[j] for j in lst), b.sp[cur])
         cur = b.conv(cur)
+    if o.get('grouped_excl') and not o.get('unsupported') and not o.get('unit'):
+        # a grouped convolution with a channel multiplier (Conv(c, 2c, k, groups=c)), excluded from the search by
+        # name (PIT does not convert such layers): it DEFINES 2c fixed features for whatever follows
+        src = cur
+        cur = b.conv(cur, cout=2 * b.ch[cur], keep_size=True, p_bn=.2, groups=b.ch[cur])
+        j = cur
+        while b.prog[j][0] != 'conv':
+            j -= 1
+        b.prog[j][-1]._force_excl = True
+        if rng.random() < .5:
+            cur = b.conv(cur)
     unsup = o.get('unsupported')
     if unsup == 'add_cat':
         # residual sum one of whose operands is a channel concat (known finding K9)
@@ -404,6 +425,7 @@ def gen_program(rng, dim, opts=None):
         cands = [j for j in range(len(b.prog) - 1) if b.prog[j][0] in ('relu', 'pool', 'add', 'cat')]
         if cands:
             b.prog.extra_out = rng.choice(cands)
+            b.prog.out_form = rng.choice(['tuple', 'dict', 'nested'])
     return b.prog, ([shape, shape1] if two else [shape])
 
 
@@ -499,7 +521,9 @@ def render(prog, shapes_rec, excl, layer_info):
             k, bias = layer_info[i]
             m = ins[-1]
             if op == 'conv':
-                if i in excl:
+                if i in excl and m.groups > 1:
+                    out.append('fixedg %d %d %d %d %d %d' % (ins[1], m.out_channels, k, bias, osz, m.groups))
+                elif i in excl:
                     out.append('fixed %d %d %d %d %d 0' % (ins[1], m.out_channels, k, bias, osz))
                 else:
                     out.append('conv %d %d %d %d %d' % (ins[1], m.out_channels, k, bias, osz))
@@ -551,7 +575,7 @@ def render(prog, shapes_rec, excl, layer_info):
 def prog_summary(prog):
     """One token per node (index-aligned with the program); a trailing `also-returns:<n>` for a second output."""
     return [ins[0] + (str(list(ins[1])) if ins[0] in ('cat', 'tcat') else '') for ins in prog] + \
-        ([] if getattr(prog, 'extra_out', None) is None else ['also-returns:%d' % prog.extra_out])
+        ([] if getattr(prog, 'extra_out', None) is None else ['also-returns:%d:%s' % (prog.extra_out, getattr(prog, 'out_form', 'tuple'))])
 
 
 ALPHA_PALETTE = [0, 1, 2, 3, 4, 5, 6, 8, 12, -3, -6, 4, 8]   # eighths
